@@ -48,6 +48,81 @@ def same_header_modulo_targets(spec_header: str, s) -> bool:
     return shape(a) == shape(s.target)
 
 
+MAP_PURE_CALLS = {"min", "max", "abs", "float", "int", "round", "bool", "len", "range"}
+
+
+def analyse_map_body(body, v):
+    """Syntactic independence check for engine.map_loop. Returns {array name: position of v in its index}; raises
+    Unsupported with the reason when the body is not recognisably an independent-iteration body."""
+    mod = ast.Module(body=list(body), type_ignores=[])
+    written = {}
+
+    def idx_elts(sub):
+        sl = sub.slice
+        return list(sl.elts) if isinstance(sl, ast.Tuple) else [sl]
+
+    def pos_of(sub):
+        ps = [i for i, e in enumerate(idx_elts(sub)) if isinstance(e, ast.Name) and e.id == v]
+        return ps[0] if len(ps) == 1 else None
+    for n in ast.walk(mod):
+        if isinstance(n, (ast.Return, ast.Break, ast.Continue, ast.Yield, ast.YieldFrom, ast.Raise, ast.While, ast.With, ast.Try, ast.Global, ast.Nonlocal, ast.Delete)):
+            raise Unsupported(f"loop body contains {type(n).__name__}: not an independent-iteration loop")
+        if isinstance(n, ast.Subscript) and isinstance(n.ctx, ast.Store):
+            if not isinstance(n.value, ast.Name):
+                raise Unsupported("store into a non-local array in a loop without invariant")
+            p = pos_of(n)
+            if p is None or written.setdefault(n.value.id, p) != p:
+                raise Unsupported(f"store {ast.unparse(n)} is not indexed by the loop variable {v} at a fixed position")
+        if isinstance(n, ast.Attribute) and isinstance(n.ctx, ast.Store):
+            raise Unsupported("attribute store in a loop without invariant")
+        if isinstance(n, ast.Call):
+            f = ast.unparse(n.func)
+            if not (f in MAP_PURE_CALLS or f.startswith(("np.", "numpy.", "math."))):
+                raise Unsupported(f"call of {f} in a loop without invariant")
+        if isinstance(n, ast.For) and not (isinstance(n.iter, ast.Call) and ast.unparse(n.iter.func) == "range" and isinstance(n.target, ast.Name)):
+            raise Unsupported("nested loop that is not `for x in range(..)`")
+    for n in ast.walk(mod):
+        if isinstance(n, ast.Subscript) and isinstance(n.ctx, ast.Load) and isinstance(n.value, ast.Name) and n.value.id in written:
+            if pos_of(n) != written[n.value.id]:
+                raise Unsupported(f"read {ast.unparse(n)} of an array written in the loop at another index: iterations are not independent")
+        if isinstance(n, ast.Name) and n.id in written:
+            pass
+    # written arrays may only occur as subscripted names
+    sub_vals = {id(n.value) for n in ast.walk(mod) if isinstance(n, ast.Subscript)}
+    for n in ast.walk(mod):
+        if isinstance(n, ast.Name) and n.id in written and id(n) not in sub_vals:
+            raise Unsupported(f"array {n.id} written in the loop is also used as a whole: iterations may not be independent")
+    # scalars: assigned before use in every iteration, never augmented (no loop-carried value)
+    stores, loads = {}, {}
+    for n in ast.walk(mod):
+        if isinstance(n, ast.AugAssign) and isinstance(n.target, ast.Name):
+            raise Unsupported(f"scalar {n.target.id} is accumulated across iterations: needs a loop invariant")
+        if isinstance(n, ast.Name) and n.id != v and n.id not in written:
+            d = stores if isinstance(n.ctx, ast.Store) else loads
+            d.setdefault(n.id, []).append((n.lineno, n.col_offset))
+    top_level_assigned = set()
+    for st_ in body:
+        if isinstance(st_, (ast.Assign, ast.AnnAssign)):
+            for t in (st_.targets if isinstance(st_, ast.Assign) else [st_.target]):
+                if isinstance(t, ast.Name):
+                    top_level_assigned.add(t.id)
+    for name, ss in stores.items():
+        if name in loads:
+            if min(loads[name]) < min(ss):
+                raise Unsupported(f"scalar {name} is read before it is assigned in the iteration: loop-carried value")
+            inner_loop_vars = {n.target.id for n in ast.walk(mod) if isinstance(n, ast.For) and isinstance(n.target, ast.Name)}
+            if name not in top_level_assigned and name not in inner_loop_vars:
+                # assigned only conditionally / in a nested block: accept only if every read is in the same nested statement
+                owner = None
+                for st_ in body:
+                    if any(isinstance(m, ast.Name) and m.id == name for m in ast.walk(st_)):
+                        if owner is None:
+                            owner = st_
+                        elif owner is not st_:
+                            raise Unsupported(f"scalar {name} is assigned conditionally and read elsewhere in the iteration")
+    return written
+
+
 def abstract_escapes(body):
     """return / break / continue statements of a block that leave the block (not those of nested defs / loops)."""
     out, seen = [], set()
@@ -285,7 +360,16 @@ class Ex:
             return VClass(r[1])
         if r[0] == "assign":
             mod, expr = r[1], r[2]
-            return self.ev(expr, Frame(None, mod))
+            # module-level MUTABLE objects (a dict / list used as a cache, a registry) are one object for the whole
+            # run: evaluated on first use and remembered in the path's state; immutable values are simply re-evaluated
+            g = self.st.ghost.setdefault("GLOBALS", {})
+            key = (mod.relpath, name)
+            if key in g:
+                return g[key]
+            v = self.ev(expr, Frame(None, mod))
+            if isinstance(v, VRef):
+                g[key] = v
+            return v
         if r[0] == "module":
             if self.world.module(r[1]) is not None:
                 return VLib("repo:" + r[1])
@@ -1707,6 +1791,10 @@ class Ex:
             return self.loop_with_invariant(s, fr, spec, it, ordinal)
         if isinstance(it, VSeq):
             raise Unsupported(f"loop over a symbolic-length sequence without invariant: {ast.unparse(s.target)} in {ast.unparse(s.iter)[:50]}")
+        if isinstance(it, VRange) and it.step is None and not (is_conc(int_of(it.lo)) and is_conc(int_of(it.hi))):
+            r = self.map_loop(s, fr, it)
+            fr.loop_ordinal += sum(1 for n in ast.walk(ast.Module(body=s.body, type_ignores=[])) if isinstance(n, (ast.For, ast.While)))
+            return r
         items = self.iterate(it, fr)
         saved = fr.loop_ordinal
         for x in items:
@@ -1723,6 +1811,82 @@ class Ex:
             return
         # nested loops keep source-order ordinals: skip the ordinals of the body
         fr.loop_ordinal = saved + sum(1 for n in ast.walk(ast.Module(body=s.body, type_ignores=[])) if isinstance(n, (ast.For, ast.While)))
+
+    # ---- independent-iteration ("map") loops over a symbolic range -----------------------------------------------
+    def map_loop(self, s, fr, rng):
+        """`for v in range(lo, hi): BODY` where iterations are independent (checked syntactically by analyse_map_body:
+        every array written in BODY is written and read only at an index holding v at one fixed position, scalars are
+        assigned before use in each iteration, no loop-carried scalar, no control transfer out of the loop, only pure
+        library calls). Rule: each written array A becomes a fresh function F_A; for every registered generic index g of
+        A's rank, F_A(g) = the value BODY stores when run with v = g[p] from the PRE-loop state if lo <= g[p] < hi, else
+        the old A(g). Elsewhere F_A is unconstrained (over-approximation). No invariant has to be supplied."""
+        st = self.st
+        v = s.target.id if isinstance(s.target, ast.Name) else None
+        if v is None or s.orelse:
+            raise Unsupported("symbolic-range loop without invariant: not a simple `for v in range(..)`")
+        written = analyse_map_body(s.body, v)
+        lo, hi = z_int(int_of(rng.lo)), z_int(int_of(rng.hi))
+        arrays = {}
+        for name, pos in written.items():
+            ref = fr.locals.get(name)
+            if not (isinstance(ref, VRef) and isinstance(st.cell(ref), HArr)) or (st.cell(ref).tag and st.cell(ref).tag[0] == "view"):
+                raise Unsupported(f"map loop writes {name}, which is not a plain array local")
+            arrays[name] = (ref, pos)
+        gens = st.ghost.get("generic", [])
+        runs = []            # distinct generic values of the loop variable
+        for name, (ref, pos) in arrays.items():
+            rank = len(st.cell(ref).shape)
+            gs = [g for g in gens if len(g) == rank]
+            if not gs:
+                raise Unsupported(f"map loop over {name}: no generic index of rank {rank} registered by the contract")
+            for g in gs:
+                c = z_int(g[pos])
+                if not any(z3.eq(c, r) for r in runs):
+                    runs.append(c)
+        scalars = [n for n in self.assigned_names(s.body) if n not in arrays]
+        pre_elem = {name: st.cell(ref)._elem for name, (ref, _) in arrays.items()}
+        pre_locals = dict(fr.locals)
+        saved_ord = fr.loop_ordinal
+        results = {name: [] for name in arrays}
+        for c in runs:
+            for name, (ref, _) in arrays.items():
+                st.cell(ref)._elem = pre_elem[name]
+            fr.locals.clear()
+            fr.locals.update(pre_locals)
+            fr.loop_ordinal = saved_ord
+            inr = z3.And(lo <= c, c < hi)
+            if st.branch(inr):
+                fr.locals[v] = VInt(c)
+                try:
+                    self.exec_block(s.body, fr)
+                except (_Break, _Continue):
+                    raise Unsupported("break / continue in a map loop")
+            for name, (ref, pos) in arrays.items():
+                results[name].append((c, st.cell(ref)._elem))
+        fr.locals.clear()
+        fr.locals.update(pre_locals)
+        fr.loop_ordinal = saved_ord
+        for name, (ref, pos) in arrays.items():
+            cell = st.cell(ref)
+            old = pre_elem[name]
+            probe = old(tuple(z3.IntVal(0) for _ in cell.shape))
+            sort = z3.RealSort() if isinstance(probe, VFloat) else z3.IntSort() if isinstance(probe, VInt) else z3.BoolSort()
+            wrap = VFloat if isinstance(probe, VFloat) else VInt if isinstance(probe, VInt) else VBool
+            F = z3.Function(st.fresh_name(f"{name}_after_loop"), *([z3.IntSort()] * len(cell.shape)), sort)
+            for g in [g for g in gens if len(g) == len(cell.shape)]:
+                c = z_int(g[pos])
+                after = next(e for cc, e in results[name] if z3.eq(cc, c))
+                val = after(tuple(g))
+                t = to_real(val) if sort == z3.RealSort() else (z_bool(val.v) if sort == z3.BoolSort() else z_int(int_of(val)))
+                st.assume(F(*[z_int(x) for x in g]) == t)
+            cell.elem = lambda ix, F=F, wrap=wrap: wrap(F(*[z_int(i) for i in ix]))
+        for n in scalars + [v]:
+            if n in fr.locals:
+                try:
+                    fr.locals[n] = self.havoc_like(fr.locals[n], n)
+                except Unsupported:
+                    del fr.locals[n]
+        st.assumptions.add("independent-iteration loops over a symbolic range are summarised pointwise at the contract's generic indices (engine.map_loop; side conditions checked syntactically)")
 
     def assigned_names(self, stmts):
         out = []
